@@ -413,6 +413,9 @@ class IntervalFn:
             return dict(env), dict(env)
         if isinstance(test, ast.Compare) and len(test.ops) == 1:
             l, r, op = test.left, test.comparators[0], test.ops[0]
+            if isinstance(r, ast.Name) and isinstance(env.get(r.id), Iv) and not isinstance(l, ast.Name):
+                mirror = {ast.Lt: ast.Gt, ast.LtE: ast.GtE, ast.Gt: ast.Lt, ast.GtE: ast.LtE}.get(type(op))
+                l, r, op = r, l, (mirror() if mirror else op)
             if isinstance(l, ast.Name) and isinstance(env.get(l.id), Iv):
                 try:
                     rv = self.ev(r, env)
